@@ -6,24 +6,27 @@
 (* padded and empty values, body framing).  TLC enumerates the menu and      *)
 (* writes the request BYTES; the harness gives the same bytes to net/http's  *)
 (* http.ReadRequest (the oracle) and, through a fasthttp server, to          *)
-(* fasthttpadaptor.ConvertRequest.                                          *)
+(* fasthttpadaptor.ConvertRequest.  `normalize` is the server configuration *)
+(* dimension: FALSE = Server.DisableHeaderNamesNormalizing (fasthttp keeps   *)
+(* the header names as received); the http.Request must be the same either  *)
+(* way, with canonical keys as net/http produces them.                       *)
 (***************************************************************************)
 EXTENDS Integers, Sequences, FiniteSets, TLC, Json, SequencesExt
 
 CRLF == "\r\n"
-Methods == {"GET", "POST", "PUT", "DELETE", "HEAD", "OPTIONS", "PATCH"}
-Targets == {"/", "/a/b?x=1&y=2", "/%41%2Fb?q=%20a+b", "/a//b/../c", "http://abs.example/p?q=1", "/x?"}
+Methods == {"GET", "POST", "PUT", "HEAD", "OPTIONS"}
+Targets == {"/", "/a/b?x=1&y=2", "/%41%2Fb?q=%20a+b", "/a//b/../c", "http://abs.example/p?q=1"}
 Versions == {"HTTP/1.1", "HTTP/1.0"}
 Hosts == {"example.com", "example.com:8080"}
 \* optional header lines, in this order when present
 Opt == << "X-A: v1" \o CRLF \o "X-A: v2" \o CRLF,
-          "x-lower-case: v" \o CRLF,
+          "x-trace-id: t1" \o CRLF \o "X-Trace-Id: t2" \o CRLF,      \* one field, two spellings of its name
           "Cookie: a=b; c=d" \o CRLF,
-          "Accept-Encoding: gzip, br" \o CRLF,
+          "accept-language: en, de" \o CRLF,                          \* a well-known field in lower case
           "X-Empty:" \o CRLF,
           "X-Sp:    padded value  " \o CRLF >>
 Bodies == {"none", "cl", "chunked"}
-HasBody(m) == m \in {"POST", "PUT", "PATCH"}
+HasBody(m) == m \in {"POST", "PUT"}
 
 RECURSIVE Cat(_, _, _)
 Cat(sub, i, acc) == IF i > Len(Opt) THEN acc
@@ -38,10 +41,10 @@ Bytes(m, t, v, h, sub, b) ==
                             \o "3" \o CRLF \o "llo" \o CRLF \o "0" \o CRLF \o CRLF)
 
 Vectors ==
-  { [method |-> m, target |-> t, version |-> v, host |-> h, opt |-> sub, body |-> b,
+  { [method |-> m, target |-> t, version |-> v, host |-> h, opt |-> sub, body |-> b, normalize |-> nz,
      bytes |-> Bytes(m, t, v, h, sub, b)] :
       m \in Methods, t \in Targets, v \in Versions, h \in Hosts, sub \in SUBSET (1..Len(Opt)),
-      b \in Bodies }
+      b \in Bodies, nz \in BOOLEAN }
 
 \* valid requests only: a body needs a method that takes one; chunked needs HTTP/1.1
 Valid(x) == /\ (x.body # "none" => HasBody(x.method))
